@@ -272,6 +272,7 @@ def gen_c01_spec(rng: random.Random, maxn: int = 40) -> Dict[str, Any]:
         msgs.append(m)
     spec: Dict[str, Any] = {"cfg": gen_cfg(rng), "msgs": msgs}
     spec["cfg"]["threads"] = len(msgs) + 2
+    spec["cfg"]["ack"] = rng.choice(["when_saved", "when_saved", "when_executed", "when_received"])  # (half of the messages have no ack callback)
     if rng.random() < 0.15:
         # another worker object in the same process (another broker, tasks of the same names, other signatures)
         spec["twin_receiver"] = True
